@@ -1924,6 +1924,7 @@ func (mgr *Manager) removeConverter(path string) error {
 	if err := converter.Reset(); err != nil {
 		return err
 	}
+	mgr.invalidateTagsAfterConverterReset()
 
 	delete(mgr.converters, name)
 	delete(mgr.streamsToConvert, name)
@@ -1947,6 +1948,7 @@ func (mgr *Manager) restartConverterProcess(path string) error {
 	if err := converter.Reset(); err != nil {
 		return err
 	}
+	mgr.invalidateTagsAfterConverterReset()
 
 	// run the converter on all streams that match the tags it is attached to again
 	for _, tag := range mgr.tags {
@@ -1961,6 +1963,24 @@ func (mgr *Manager) restartConverterProcess(path string) error {
 		Converter: converter.Statistics(),
 	})
 	return nil
+}
+
+// The cached output of a converter was dropped. Tags with data filters may have matched that output,
+// they have to be evaluated again.
+func (mgr *Manager) invalidateTagsAfterConverterReset() {
+	for tn, ti := range mgr.tags {
+		if ti.features.MainFeatures&query.FeatureFilterData == 0 && ti.features.SubQueryFeatures&query.FeatureFilterData == 0 {
+			continue
+		}
+		tin := *ti
+		tin.Uncertain = mgr.allStreams
+		mgr.tags[tn] = &tin
+	}
+	// a tagging job that is running right now has searched the old output
+	mgr.updatedStreamsDuringTaggingJob = mgr.updatedStreamsDuringTaggingJob.Copy()
+	mgr.updatedStreamsDuringTaggingJob.Or(mgr.allStreams)
+	mgr.inheritTagUncertainty()
+	mgr.startTaggingJobIfNeeded()
 }
 
 func (mgr *Manager) attachConverterToTag(tag *tag, tagName string, converter *converters.CachedConverter) error {
@@ -2013,6 +2033,7 @@ func (mgr *Manager) detachConverterFromTag(tag *tag, tagName string, converter *
 		if err := converter.Reset(); err != nil {
 			return err
 		}
+		mgr.invalidateTagsAfterConverterReset()
 	}
 	return nil
 }
